@@ -764,6 +764,8 @@ Definition step (s : list (Z * reg)) (o e : line) : list (Z * reg) * outline :=
       | Some x => (reg_set s r {| r_impl := sk_reset (r_impl x); r_g := ghost_new (sk_lgk (r_impl x)) |}, (ok, []))
       | None => (s, (refused, []))
       end
+  | 11 :: h1 :: h2 :: _ =>                               (* HllUtil::coupon of a raw hash state (h1, h2) *)
+      (s, ([Nz (coupon_of_hash (z_to_u64 h1) (z_to_u64 h2))], []))
   | _ => (s, ([-2], []))
   end.
 
